@@ -990,4 +990,101 @@ theorem reachable_of_runSched {ps : List (UInt64 × UInt64)} {sched : List Nat} 
     | none => rw [hs] at hr; cases hr
     | some s' => rw [hs] at hr; exact ih (Reachable.step i h hs) hr
 
+/-! ### histories on one PeerConnection, with setDescription (rollback, older descriptions) in between -/
+
+theorem cellsOk_mono {cells : UInt64 × UInt64} {R R' : Nat} (h : CellsOk cells R) (hle : R' ≤ R) : CellsOk cells R' := by
+  rcases h with h | ⟨h1, h2, h3⟩
+  · exact Or.inl h
+  · exact Or.inr ⟨h1, h2, by omega⟩
+
+/-- what is known about the descriptions handed out so far, relative to the origin cells -/
+def PcInv (s : PcSt) : Prop :=
+  s.created.Pairwise (fun a b => a.2.toNat < b.2.toNat) ∧
+  ∀ o ∈ s.created, s.cells.1 ≠ 0 ∧ o.1 = s.cells.2 ∧ o.2.toNat ≤ s.cells.1.toNat
+
+theorem pcFresh_cons (a : PcAct) (as : List PcAct) : pcFresh (a :: as) = a.fresh ++ pcFresh as := by
+  simp [pcFresh]
+
+/-- one generating call (guards passed) keeps the invariant -/
+theorem pcGenerate_spec (B R' : Nat) (s : PcSt) (a : Api) (neg' : Signaling.Neg)
+    (hds : ∀ p ∈ a.fresh, p.1 ≠ 0 ∧ p.2 ≠ 0 ∧ p.2.toNat + B < 2 ^ 64) (hB : a.fresh.length + R' ≤ B)
+    (hW : CellsOk s.cells (a.fresh.length + R')) (hI : PcInv s) :
+    ∃ s', pcGenerate s a neg' = some s' ∧ CellsOk s'.cells R' ∧ PcInv s' := by
+  obtain ⟨cells', last', hr, hW', hnil, hcons⟩ := runFresh_spec B R' a.fresh s.cells none hds hB hW
+  have hmono : s.cells.1.toNat ≤ cells'.1.toNat := by
+    by_cases hne : a.fresh = []
+    · rw [(hnil hne).1]; exact Nat.le_refl _
+    · exact Nat.le_of_lt (hcons hne).2.2.1
+  have hid : s.cells.1 ≠ 0 → cells'.1 ≠ 0 ∧ cells'.2 = s.cells.2 := by
+    intro hc
+    by_cases hne : a.fresh = []
+    · rw [(hnil hne).1]; exact ⟨hc, rfl⟩
+    · exact ⟨(hcons hne).2.1, (hcons hne).2.2.2 hc⟩
+  -- the descriptions handed out before, seen from the new cells
+  have hold : ∀ o ∈ s.created, cells'.1 ≠ 0 ∧ o.1 = cells'.2 ∧ o.2.toNat ≤ cells'.1.toNat := by
+    intro o ho
+    obtain ⟨h1, h2, h3⟩ := hI.2 o ho
+    exact ⟨(hid h1).1, by rw [h2, (hid h1).2], Nat.le_trans h3 hmono⟩
+  by_cases hret : a.returns = true ∧ a.fresh ≠ []
+  · obtain ⟨hret1, hne⟩ := hret
+    obtain ⟨e1, e2, e3, _⟩ := hcons hne
+    refine ⟨{ neg := neg', cells := cells', created := s.created ++ [(cells'.2, cells'.1)] }, ?_, hW', ?_, ?_⟩
+    · simp only [pcGenerate, hr, hret1, e1]
+    · refine List.pairwise_append.mpr ⟨hI.1, List.pairwise_singleton _ _, ?_⟩
+      intro o ho o' ho'
+      rw [List.mem_singleton] at ho'
+      subst ho'
+      have := (hI.2 o ho).2.2
+      simp only; omega
+    · intro o ho
+      rcases List.mem_append.mp ho with ho | ho
+      · exact hold o ho
+      · rw [List.mem_singleton] at ho
+        subst ho
+        exact ⟨e2, rfl, Nat.le_refl _⟩
+  · refine ⟨{ s with cells := cells' }, ?_, hW', hI.1, hold⟩
+    by_cases hne : a.fresh = []
+    · have := (hnil hne).2
+      subst this
+      cases hb : a.returns <;> simp [pcGenerate, hr, hb]
+    · have hb : a.returns = false := by
+        cases hb : a.returns
+        · rfl
+        · exact absurd ⟨hb, hne⟩ hret
+      simp [pcGenerate, hr, hb]
+
+theorem pcRun_spec (B : Nat) : ∀ (acts : List PcAct) (s : PcSt),
+    (∀ p ∈ pcFresh acts, p.1 ≠ 0 ∧ p.2 ≠ 0 ∧ p.2.toNat + B < 2 ^ 64) → (pcFresh acts).length ≤ B →
+    CellsOk s.cells (pcFresh acts).length → PcInv s →
+    ∃ s', pcRun s acts = some s' ∧ PcInv s' := by
+  intro acts
+  induction acts with
+  | nil => intro s _ _ _ hI; exact ⟨s, rfl, hI⟩
+  | cons a as ih =>
+    intro s hf hB hW hI
+    rw [pcFresh_cons] at hf hB hW
+    simp only [List.length_append] at hB hW
+    have hf1 : ∀ p ∈ a.fresh, p.1 ≠ 0 ∧ p.2 ≠ 0 ∧ p.2.toNat + B < 2 ^ 64 := fun p hp => hf p (by simp [hp])
+    have hf2 : ∀ p ∈ pcFresh as, p.1 ≠ 0 ∧ p.2 ≠ 0 ∧ p.2.toNat + B < 2 ^ 64 := fun p hp => hf p (by simp [hp])
+    -- it suffices to find the state after `a`, still within budget for the rest
+    suffices h : ∃ s1, pcStep s a = some s1 ∧ CellsOk s1.cells (pcFresh as).length ∧ PcInv s1 by
+      obtain ⟨s1, h1, h2, h3⟩ := h
+      obtain ⟨s', h4, h5⟩ := ih s1 hf2 (by omega) h2 h3
+      exact ⟨s', by simp only [pcRun, h1, Option.bind_some]; exact h4, h5⟩
+    have hskip : CellsOk s.cells (pcFresh as).length := cellsOk_mono hW (by omega)
+    cases a with
+    | createOffer ap =>
+      simp only [pcStep]
+      cases he : (Signaling.createOffer s.neg s.created.length).err with
+      | some _ => exact ⟨s, rfl, hskip, hI⟩
+      | none => exact pcGenerate_spec B _ s ap _ hf1 hB hW hI
+    | createAnswer ap =>
+      simp only [pcStep]
+      cases he : (Signaling.createAnswer s.neg s.created.length).err with
+      | some _ => exact ⟨s, rfl, hskip, hI⟩
+      | none => exact pcGenerate_spec B _ s ap _ hf1 hB hW hI
+    | setLocal d => exact ⟨_, rfl, hskip, hI⟩
+    | setRemote d => exact ⟨_, rfl, hskip, hI⟩
+    | close => exact ⟨_, rfl, hskip, hI⟩
+
 end WebrtcVerif.Origin
